@@ -61,6 +61,8 @@ pub fn case_to(c: &Case) -> Value {
             "fd_headroom": r.fd_headroom,
             "fd_starved_from_batch": r.fd_from_batch,
             "fd_starved_for_batches": r.fd_for_batches,
+            "keep_tmp_dir": r.keep_tmp,
+            "tmp_dir_on_another_file_system": r.tmp_on_other_fs,
         })).collect::<Vec<_>>(),
     })
 }
@@ -85,6 +87,8 @@ pub fn case_from(v: &Value) -> Result<Case, String> {
             fd_headroom: r["fd_headroom"].as_u64().map(|x| x as u32),
             fd_from_batch: r["fd_starved_from_batch"].as_u64().unwrap_or(0) as u32,
             fd_for_batches: r["fd_starved_for_batches"].as_u64().unwrap_or(0) as u32,
+            keep_tmp: r["keep_tmp_dir"].as_bool().unwrap_or(false),
+            tmp_on_other_fs: r["tmp_dir_on_another_file_system"].as_bool().unwrap_or(false),
         });
     }
     let trailing_newline = v["trailing_newline"]
